@@ -25,7 +25,7 @@ pub const INFO: PropInfo = PropInfo {
         "the date is covered for every day of [1970, 9999] in the thorough tier and by biased sampling in the quick tier",
         "the reference date formatter (civil-from-days) is cross-checked against Python's email.utils once per batch (tools/selftest.py)",
     ],
-    expected_probes: &["c20.leap_day", "c20.century_boundary", "c20.year_9999", "c20.epoch", "c20.len_power_of_ten", "c20.hex_power_of_sixteen", "c20.len_zero", "c20.hex_multi_line_message", "c20.file_served_by_a_mounted_directory"],
+    expected_probes: &["c20.leap_day", "c20.century_boundary", "c20.year_9999", "c20.epoch", "c20.len_power_of_ten", "c20.hex_power_of_sixteen", "c20.len_zero", "c20.hex_multi_line_message", "c20.file_served_by_a_mounted_directory", "c20.body_replacing_an_earlier_one"],
 };
 
 #[derive(Clone, Debug, Serialize, Deserialize)]
@@ -37,6 +37,9 @@ pub enum Kind {
     /// a file of this many bytes served by a mounted directory (one of FILE_SIZES): responses assembled from parts that
     /// were prepared at start-up must still carry the date of the response
     File(usize),
+    /// a text body of `.1` bytes that replaces an earlier one of `.0` bytes on the same response (what is rendered must be
+    /// the size that is sent, whatever was rendered before)
+    LenAfter(usize, usize),
 }
 const FILE_SIZES: [usize; 9] = [0, 1, 9, 10, 99, 100, 4095, 4096, 65_536];
 #[derive(Clone, Debug, Serialize, Deserialize)]
@@ -83,6 +86,7 @@ fn gen_instant() -> u64 {
 fn gen_kind(thorough: bool) -> Kind {
     let big = if thorough { 1 } else { 0 };
     match t::weighted(&[4, 3, 2, big, 3, 2, big, 3, 2]) {
+        8 if t::chance(1, 2) => Kind::LenAfter(t::pick(&[1usize, 10, 100, 1000, 12345]), t::pick(&[0usize, 0, 1, 9, 10, 99, 100, 999])),
         8 => Kind::File(t::pick(&FILE_SIZES)),
         7 => {
             // several lines: the framed size is what must be rendered, not the size of the text
@@ -180,6 +184,7 @@ fn execute(sc: &Scenario, out: &mut Outcome) {
     let app = Ohkami::new((
         "/static".Dir(dir_lit),
         "/len".GET(|Query(q): Query<N>| async move { Response::OK().with_text("x".repeat(q.n)) }),
+        "/len2".GET(|Query(q): Query<N>| async move { Response::OK().with_text("p".repeat(q.l.unwrap_or(0))).with_text("x".repeat(q.n)) }),
         "/sse".GET(|Query(q): Query<N>| async move {
             let text = vec!["y".repeat(q.n); q.l.unwrap_or(1)].join("\n");
             let ds: DataStream<String> = DataStream::new(move |mut s| async move { s.send(text) });
@@ -203,6 +208,7 @@ fn execute(sc: &Scenario, out: &mut Outcome) {
                 Kind::Hex(n) => format!("/sse?n={n}"),
                 Kind::HexLines(n, l) => format!("/sse?n={n}&l={l}"),
                 Kind::File(n) => format!("/static/f{n}.txt"),
+                Kind::LenAfter(prev, n) => format!("/len2?n={n}&l={prev}"),
             };
             c.send(format!("GET {target} HTTP/1.1\r\nHost: s\r\n\r\n").as_bytes(), 0);
             let r = c.recv(false, DEFAULT_TIMEOUT).await;
@@ -269,6 +275,14 @@ fn execute(sc: &Scenario, out: &mut Outcome) {
                 let cl = resp.header("content-length").unwrap_or("");
                 if cl != n.to_string() || resp.body.len() != n {
                     out.violate("decimal", "content-length-differs", format!("a file of {n} bytes is announced as Content-Length {:?} ({} bytes arrived)", cl, resp.body.len()));
+                    return;
+                }
+            }
+            Kind::LenAfter(_, n) => {
+                out.probe("c20.body_replacing_an_earlier_one");
+                let cl = resp.header("content-length").unwrap_or("");
+                if cl != n.to_string() || resp.body.len() != n {
+                    out.violate("decimal", "content-length-differs", format!("a body of {n} bytes (replacing an earlier one) is announced as Content-Length {:?} ({} bytes arrived)", cl, resp.body.len()));
                     return;
                 }
             }
